@@ -95,6 +95,10 @@ pub struct TypeSpec {
     pub style: KeyStyle,
     /// extra shared argument of the derive_ex list (e.g. an explicit `bound(..)` without `..`)
     pub shared_arg: Option<&'static str>,
+    /// enums with explicit discriminants (the documented order of variants is the declaration position, not the
+    /// discriminant): 0 none, 1 all explicit in DECREASING order (`#[repr(u8)] enum X { A = 6, B = 4, .. }`),
+    /// 2 every other variant explicit (`A = 1, B, C = 3, D`: an explicit value equals the POSITION of the next variant)
+    pub discr: u8,
 }
 
 /// marker value of `TypeSpec::shared_arg`: every trait in its own stacked `#[derive_ex(..)]` attribute
@@ -117,7 +121,20 @@ impl TypeSpec {
             }
         };
         if self.is_enum {
-            ItemDef::enm("X", g, self.variants.iter().enumerate().map(|(i, v)| VariantDef::new(VNAMES[i], fields_of(v))).collect())
+            let n = self.variants.len();
+            let mut it = ItemDef::enm("X", g, self.variants.iter().enumerate().map(|(i, v)| {
+                let mut vd = VariantDef::new(VNAMES[i], fields_of(v));
+                if self.discr == 1 {
+                    vd.discr = Some(format!("{}", 2 * (n - i)));
+                } else if self.discr == 2 && i % 2 == 0 {
+                    vd.discr = Some(format!("{}", i + 1));
+                }
+                vd
+            }).collect());
+            if self.discr != 0 {
+                it.attrs.push("#[repr(u8)]".into());
+            }
+            it
         } else {
             ItemDef::strukt("X", g, fields_of(&self.variants[0]))
         }
@@ -175,7 +192,7 @@ impl TypeSpec {
             let fs: Vec<String> = v.fields.iter().map(|f| if f.combo.is_plain() { f.ty.text().to_string() } else { format!("[{}] {}", f.combo.describe(), f.ty.text()) }).collect();
             parts.push(format!("{}{:?}({})", if self.is_enum { VNAMES[vi] } else { "" }, v.kind, fs.join(", ")));
         }
-        format!("{} {}", if self.is_enum { "enum" } else { "struct" }, parts.join(" | "))
+        format!("{}{} {}", if self.is_enum { "enum" } else { "struct" }, [" ", " with decreasing explicit discriminants ", " with every other discriminant explicit "][self.discr as usize].trim_end(), parts.join(" | "))
     }
 }
 
